@@ -169,15 +169,103 @@ func (e *boundsEngine) eval1(v ssa.Value, at *ssa.BasicBlock, depth int) bnd {
 				}
 			}
 		}
+		if x.Op == token.QUO && isIntType(x.Type()) {
+			// a / c, c >= 1 (truncating): the quotient lies between min(a,0) and max(a,0)
+			if c, ok := constInt(x.Y); ok && c >= 1 {
+				a := e.eval(x.X, at, depth+1)
+				r := bnd{lo: -inf, hiK: inf}
+				if a.loLen == nil && a.lo > -inf {
+					if a.lo >= 0 || a.lo > -c {
+						r.lo = 0
+					} else {
+						r.lo = a.lo / c
+					}
+				} else if a.loLen != nil && a.lo > -c {
+					r.lo = 0 // len(s)+k with k > -c: at least -c+1, truncates to >= 0
+				}
+				if a.hiK < inf {
+					if a.hiLen == nil {
+						if a.hiK >= 0 {
+							r.hiK = a.hiK / c
+						} else {
+							r.hiK = 0
+						}
+					} else {
+						// <= max(len+k, 0) <= len + max(k,0)
+						r.hiLen = a.hiLen
+						if a.hiK > 0 {
+							r.hiK = a.hiK
+						} else {
+							r.hiK = 0
+						}
+					}
+				}
+				return r
+			}
+		}
 		a, b := e.eval(x.X, at, depth+1), e.eval(x.Y, at, depth+1)
 		switch x.Op {
 		case token.ADD:
 			return addB(a, b)
 		case token.SUB:
-			return addB(a, negB(b))
+			r := addB(a, negB(b))
+			// (len(L)+k1) - v with v <= len(L)+k2  is  >= k1-k2 (the lengths cancel)
+			if a.loLen != nil && b.hiLen != nil && b.hiK < inf && sameLen(a.loLen, b.hiLen) {
+				if c := a.lo - b.hiK; r.loLen == nil && c > r.lo {
+					r.lo = c
+				}
+			}
+			for _, x := range b.extra {
+				if a.loLen != nil && sameLen(a.loLen, x.L) {
+					if c := a.lo - x.k; r.loLen == nil && c > r.lo {
+						r.lo = c
+					}
+				}
+			}
+			return r
 		}
 		return top()
 	case *ssa.Phi:
+		// a loop counter held in a register: i = phi(init, i+k): monotone from init
+		if isIntType(x.Type()) {
+			var inits []int
+			up, down, other := 0, 0, 0
+			for i, ed := range x.Edges {
+				if bo, ok := ed.(*ssa.BinOp); ok && bo.X == ssa.Value(x) && (bo.Op == token.ADD || bo.Op == token.SUB) {
+					if k, ok := constInt(bo.Y); ok && k >= 0 {
+						if bo.Op == token.ADD {
+							up++
+						} else {
+							down++
+						}
+						continue
+					}
+					other++
+					continue
+				}
+				if ed == ssa.Value(x) {
+					continue
+				}
+				inits = append(inits, i)
+			}
+			if other == 0 && (up > 0) != (down > 0) && len(inits) > 0 {
+				var r bnd
+				for n, i := range inits {
+					b := e.evalOnEdge(x.Edges[i], x.Block().Preds[i], x.Block(), depth+1)
+					if n == 0 {
+						r = b
+					} else {
+						r = joinB(r, b)
+					}
+				}
+				if up > 0 {
+					r.hiK, r.hiLen = inf, nil
+				} else {
+					r.lo, r.loLen = -inf, nil
+				}
+				return r
+			}
+		}
 		var r bnd
 		first := true
 		// if the merged value is proven non-NaN at the use, then on whichever
@@ -535,12 +623,12 @@ func (e *boundsEngine) applyCmp(v ssa.Value, r bnd, bo *ssa.BinOp, truth bool, a
 		}
 		op = negateOp(op)
 	}
-	var other ssa.Value
+	var other, self ssa.Value
 	switch {
 	case sameNum(x, v):
-		other = y
+		other, self = y, x
 	case sameNum(y, v):
-		other = x
+		other, self = x, y
 		op = flipOp(op)
 	default:
 		return r
@@ -549,7 +637,10 @@ func (e *boundsEngine) applyCmp(v ssa.Value, r bnd, bo *ssa.BinOp, truth bool, a
 		return r
 	}
 	ob := e.evalNoRefine(other, depth+1)
-	integ := e.integral(v, 0) && e.integral(other, 0)
+	// strictness gains one only between integer-valued operands; judged on
+	// the operand that was compared, not on a float->int conversion of it
+	// (0 < f does not make int(f) >= 1)
+	integ := e.integral(self, 0) && e.integral(other, 0)
 	switch op {
 	case token.NEQ:
 		if integ && ob.loLen == nil && ob.hiLen == nil && ob.lo == ob.hiK {
@@ -625,6 +716,21 @@ func (e *boundsEngine) integral(v ssa.Value, depth int) bool {
 				return true
 			case "math.Abs":
 				return e.integral(x.Call.Args[0], depth+1)
+			}
+			// a package function all of whose normal returns are integer-valued
+			if len(f.Blocks) > 0 && f.Signature.Results().Len() == 1 && depth < 6 {
+				n := 0
+				for _, b := range f.Blocks {
+					ret, ok := normalReturn(b)
+					if !ok {
+						continue
+					}
+					n++
+					if !e.integral(retVal(ret, 0), depth+3) {
+						return false
+					}
+				}
+				return n > 0
 			}
 		}
 	case *ssa.BinOp:
